@@ -33,6 +33,7 @@ OPS = [
     "appE",  # append(b, 2.5) once more (equal time stamps are allowed)
     "startC",  # start_writing(c) with a COMPLEX field of the same grid and shape (a new session may change dtype)
     "appC",  # append(c, 3.0); enabled only while the template of the current session is the complex field
+    "app0",  # append(b, 0.0): an explicit time stamp of exactly zero (a falsy value that is not "no time given")
 ]
 
 
@@ -119,6 +120,8 @@ class Model:
             return self._append("ab", self.a, 1.5)
         if op in ("appB", "appE"):
             return self._append("ab", self.b, 2.5)
+        if op == "app0":
+            return self._append("ab", self.b, 0.0)
         if op == "appN":
             return self._append("ab", self.a, None)
         if op == "appX":
@@ -199,6 +202,8 @@ class Real:
             st.append(self.a, 1.5)
         elif op in ("appB", "appE"):
             st.append(self.b, 2.5)
+        elif op == "app0":
+            st.append(self.b, 0.0)
         elif op == "appN":
             st.append(self.a)
         elif op == "appX":
